@@ -2,6 +2,7 @@ import S2T.Lemmas.SerialMore
 import S2T.Gen.Schema
 import S2T.Props.C05_History
 import S2T.Props.C05_Streams
+import S2T.Props.C05_Codec
 /-!
 # C05 — `to_json` is JSON-serialisable and `from_json` restores the same object
 
